@@ -89,11 +89,12 @@ const (
 	PvFormatter  // a value implementing fmt.Formatter (its rendering carries the token)
 	PvPublic     // a value offering Public() string
 	PvLineMapped // a string panic raised from a //line-mapped position one line past the end of its file
+	PvUnicode    // a message of a few dozen multi-byte characters (more bytes than runes)
 	pvMax
 )
 
 // PanicKindNames for reports.
-var PanicKindNames = []string{"string", "error", "runtime:nil-map", "runtime:index", "struct", "http.ErrAbortHandler", "wrapped-error", "int", "slice-typed-error", "map", "func", "error-with-panicking-Error()", "inject.InterfaceOf-panic", "io.EOF", "context.Canceled", "context.DeadlineExceeded", "wrapped-EPIPE", "wrapped-ECONNRESET", "fs.ErrNotExist", "net.ErrClosed", "http.ErrHandlerTimeout", "fmt.Formatter", "has-Public()", "line-mapped-past-eof"}
+var PanicKindNames = []string{"string", "error", "runtime:nil-map", "runtime:index", "struct", "http.ErrAbortHandler", "wrapped-error", "int", "slice-typed-error", "map", "func", "error-with-panicking-Error()", "inject.InterfaceOf-panic", "io.EOF", "context.Canceled", "context.DeadlineExceeded", "wrapped-EPIPE", "wrapped-ECONNRESET", "fs.ErrNotExist", "net.ErrClosed", "http.ErrHandlerTimeout", "fmt.Formatter", "has-Public()", "line-mapped-past-eof", "multi-byte-message"}
 
 type fmtValue struct{ tok string }
 
@@ -158,6 +159,8 @@ func raise(kind int, tok string, c flamego.Context) {
 		panic(publicValue{tok})
 	case PvLineMapped:
 		raiseFromMappedLine(tok)
+	case PvUnicode:
+		panic(tok + " 処理中に予期しないエラーが発生しました：データベース接続が切断されました")
 	case PvString:
 		panic(tok)
 	case PvError:
